@@ -5,6 +5,8 @@ From TT Require Import Lib.BytesL Model.Channels Generated.ChannelFacts Proofs.C
 From TT Require Import Generated.Http1Facts Model.Http1Wire Spec.Rfc9112 Proofs.Http1WireProofs.
 From TT Require Import Model.Http1Download Proofs.Http1DownloadProofs.
 From TT Require Import Model.RpHeadWait Proofs.RpHeadWaitProofs.
+(* not imported: its events and runs bear the same names as those of the wait for the head *)
+From TT Require Model.RpRelay Proofs.RpRelayProofs.
 Import ListNotations.
 Open Scope N_scope.
 
@@ -78,12 +80,13 @@ Print Assumptions reverse_proxy_request_head_is_well_formed.
 (* HTTP/1.1 response side (Model/Http1Download.v): whichever way offers to the one-place channel, partial writes to the transport
    and dropped listen futures (a handler giving up its wait, a timer firing beside it) are interleaved, the client has at every
    moment been sent a prefix of what the sink accepted, and once the session is closed in an orderly way, all of it. Holds because
-   the message being written is kept in the codec; as found it lived in the future and a slow reader lost the tail of a download *)
+   the message being written is kept in the codec (as found it lived in the future and a slow reader lost the tail of a download) and because
+   the codec's own close has no limit on how long the client may take (a limit that had been put there cut off a client that paused) *)
 Theorem http1_download_survives_dropped_futures :
   (forall ops, exists rest, accepted (drun true ops) = wire (drun true ops) ++ rest)
   /\ (forall ops, wire (drun true (ops ++ [DClose])) = accepted (drun true (ops ++ [DClose])))
-  /\ HTTP1_MESSAGE_IN_FLIGHT_KEPT = true.
-Proof. split; [exact sent_is_a_prefix|]. split; [exact closed_session_delivered_everything|exact eq_refl]. Qed.
+  /\ HTTP1_MESSAGE_IN_FLIGHT_KEPT = true /\ HTTP1_OWN_CLOSE_WAITS_FOR_THE_CLIENT = true.
+Proof. split; [exact sent_is_a_prefix|]. split; [exact closed_session_delivered_everything|split; exact eq_refl]. Qed.
 Print Assumptions http1_download_survives_dropped_futures.
 
 (* non-vacuity: a four-byte message, one byte written, the future dropped, the session closed: kept -> all four arrive; as found -> one *)
@@ -107,12 +110,34 @@ Theorem origins_answer_survives_a_failed_upload :
 Proof. split; [exact origins_answer_decides_proof|exact refused_upload_is_relayed_proof]. Qed.
 Print Assumptions origins_answer_survives_a_failed_upload.
 
+(* "... and subsequent bytes are relayed unchanged": after the head the request body goes on to the origin while the origin's bytes
+   are relayed (Model/RpRelay.v). For every order of events, what the client receives of the origin's answer does not depend on
+   what becomes of the upload; as long as the origin's side has not ended and the client's side has not failed the client has been
+   sent every byte the origin has sent, and the end of the origin's side takes nothing of it back - in particular when the origin
+   answers, closes with the upload unread and the write of the body fails while part of the answer is still to be passed on (a
+   response larger than one read, a client reading slower than the origin sends). As found the failed write ended the exchange
+   and cut the answer *)
+Theorem origins_answer_is_relayed_whole_after_a_failed_upload :
+  (forall evs,
+     RpRelay.relayed_of (RpRelay.run RP_FAILED_UPLOAD_STOPS_THE_UPLOAD_ONLY evs)
+     = RpRelay.relayed_of (RpRelay.run RP_FAILED_UPLOAD_STOPS_THE_UPLOAD_ONLY (filter (fun e => negb (RpRelay.is_upload e)) evs)))
+  /\ (forall evs post,
+        forallb (fun e => negb (RpRelay.is_end e)) evs = true ->
+        RpRelay.relayed_of (RpRelay.run RP_FAILED_UPLOAD_STOPS_THE_UPLOAD_ONLY evs) = RpRelay.origin_bytes evs
+        /\ RpRelay.relayed_of (RpRelay.run RP_FAILED_UPLOAD_STOPS_THE_UPLOAD_ONLY (evs ++ RpRelay.EOriginEof :: post)) = RpRelay.origin_bytes evs).
+Proof. split; [exact RpRelayProofs.upload_events_do_not_matter_proof|exact RpRelayProofs.whole_answer_is_relayed_proof]. Qed.
+Print Assumptions origins_answer_is_relayed_whole_after_a_failed_upload.
+
 Theorem code_facts :
   DEMUX_SELECT_AS_MODELLED = true /\ SPEEDTEST_AS_MODELLED = true /\ PING_ANSWERS_200_EOF = true
   /\ RP_DESTINATION_IS_CONFIGURED_ORIGIN = true /\ SERVICE_CHANNELS_DO_NOT_AUTHENTICATE = true
   (* the wait for the origin's response head reads the origin first and survives a failed write of the request body (the shape
      the scenario c18_rp_refusal was written from: an origin that answers 413 and closes with the body unread) *)
-  /\ RP_HEAD_WAIT_KEEPS_THE_ORIGINS_ANSWER = true.
+  /\ RP_HEAD_WAIT_KEEPS_THE_ORIGINS_ANSWER = true
+  (* once the head is relayed, the failure of the origin-bound write ends the upload only: the rest of the origin's answer, which
+     may be larger than one read or queued behind a slow client, is still relayed (scenario c18_rp_refusal with a drained origin
+     and a slow reader) *)
+  /\ RP_FAILED_UPLOAD_STOPS_THE_UPLOAD_ONLY = true.
 Proof. repeat split; exact eq_refl. Qed.
 Print Assumptions code_facts.
 
